@@ -8,6 +8,8 @@ import (
 	"sort"
 	"strings"
 
+	"golang.org/x/tools/go/ssa"
+
 	"verif/checker/core"
 )
 
@@ -26,6 +28,8 @@ type twinPair struct {
 	props      []string
 	why        string
 	byName     bool // locals named in subst are compared by name (through subst); all others by order of first use
+	// looseCallees: the pair is known (by reading) to use different helpers; a shape difference is then not examined further
+	looseCallees bool
 }
 
 func twinTokens(info *types.Info, fd *ast.FuncDecl, byName map[string]bool) []string {
@@ -183,7 +187,32 @@ func runTwin(c *core.Ctx) []core.Obligation {
 		site := c.Pos(fb.Pos())
 		switch kind {
 		case "shape":
-			o := core.Ob("R-TWIN", construct, site, fb.FullName(), core.Discharged, "not compared - the two functions have different shapes")
+			// different shapes: fall back to the set of library functions each twin calls. Under the pair's substitution
+			// the two sets must agree - a twin that reaches its answer through different helpers (the maximum over two
+			// endpoint distances instead of the distance to the edge) is no longer the mirror image, whatever its shape.
+			ca, cb := twinCallees(c, fa, tp.subst), twinCallees(c, fb, nil)
+			var onlyA, onlyB []string
+			for k := range ca {
+				if !cb[k] {
+					onlyA = append(onlyA, k)
+				}
+			}
+			for k := range cb {
+				if !ca[k] {
+					onlyB = append(onlyB, k)
+				}
+			}
+			sort.Strings(onlyA)
+			sort.Strings(onlyB)
+			if len(onlyA)+len(onlyB) > 0 && !tp.looseCallees {
+				obs = append(obs, core.Ob("R-TWIN", construct, site, fb.FullName(), core.Violated,
+					fmt.Sprintf("the two functions have different shapes AND call different helpers: %s (after the substitution) calls {%s} that %s does not, which calls {%s} instead - the pair was declared as mirror images (%s), so one of them no longer computes the mirrored quantity", name(tp.recvA, tp.fnA), strings.Join(onlyA, ", "), name(tp.recvB, tp.fnB), strings.Join(onlyB, ", "), tp.why)))
+				break
+			}
+			o := core.Ob("R-TWIN", construct, site, fb.FullName(), core.Discharged, "not compared token by token - the two functions have different shapes; they call the same helpers under the substitution")
+			if tp.looseCallees {
+				o.Detail = "not compared - the two functions have different shapes (and, by design, different helpers)"
+			}
 			o.Trivial = true
 			obs = append(obs, o)
 		case "same":
@@ -244,8 +273,11 @@ var twinPairs = func() []twinPair {
 	c08 := []string{"C08"}
 	for _, t := range []string{"Point", "Edge", "Cell", "ShapeIndex"} {
 		for _, m := range []string{"updateDistanceToPoint", "updateDistanceToEdge", "updateDistanceToCell", "visitContainingShapes", "setMaxError", "distance", "capBound"} {
+			// the furthest-edge capBound (all four kinds) and the point target's visitContainingShapes work through the
+			// antipode of the target (Mul(-1), a cap rebuilt around the antipodal centre): different helpers by design
+			loose := m == "capBound" || (t == "Point" && m == "visitContainingShapes")
 			ps = append(ps, twinPair{pkg: "s2", recvA: "MinDistanceTo" + t + "Target", fnA: m, recvB: "MaxDistanceTo" + t + "Target", fnB: m, subst: minMaxSubst, props: c08,
-				why: "closest-edge and furthest-edge target of the same kind"})
+				why: "closest-edge and furthest-edge target of the same kind", looseCallees: loose})
 		}
 	}
 	// the three update methods of one ShapeIndex target differ only in the sub-target they construct
@@ -266,7 +298,7 @@ var twinPairs = func() []twinPair {
 			subst: map[string]string{"ChainCrossingSign": "EdgeOrVertexChainCrossing"}},
 		twinPair{pkg: "s2", recvA: "Loop", fnA: "ContainsCell", recvB: "Polygon", fnB: "ContainsCell", props: []string{"C05"}, why: "loop and polygon version of the cell predicate", subst: map[string]string{"Loop": "Polygon"}},
 		twinPair{pkg: "s2", recvA: "Loop", fnA: "IntersectsCell", recvB: "Polygon", fnB: "IntersectsCell", props: []string{"C05"}, why: "loop and polygon version of the cell predicate", subst: map[string]string{"Loop": "Polygon"}},
-		twinPair{pkg: "s2", recvA: "Loop", fnA: "boundaryApproxIntersects", recvB: "Polygon", fnB: "boundaryApproxIntersects", props: []string{"C05"}, why: "loop and polygon version of the boundary test", subst: map[string]string{"Loop": "Polygon"}},
+		twinPair{pkg: "s2", recvA: "Loop", fnA: "boundaryApproxIntersects", recvB: "Polygon", fnB: "boundaryApproxIntersects", props: []string{"C05"}, why: "loop and polygon version of the boundary test", subst: map[string]string{"Loop": "Polygon"}, looseCallees: true}, // the polygon reads edges through its index shape
 		twinPair{pkg: "s2", recvA: "CellID", fnA: "ChildBegin", recvB: "CellID", fnB: "ChildEnd", props: []string{"C01", "C11", "C12"}, why: "first child and one-past-last child",
 			subst: map[string]string{"-": "+"}},
 		twinPair{pkg: "s2", recvA: "CellID", fnA: "ChildBeginAtLevel", recvB: "CellID", fnB: "ChildEndAtLevel", props: []string{"C01", "C11", "C12"}, why: "first and one-past-last descendant at a level",
@@ -288,7 +320,7 @@ var twinPairs = func() []twinPair {
 			subst: map[string]string{"CellUnion": "InteriorCellUnion"}},
 		twinPair{pkg: "s2", recvA: "Polygon", fnA: "anyLoopContains", recvB: "Polygon", fnB: "anyLoopIntersects", props: []string{"C07"}, why: "existential loop tests of the polygon relations",
 			subst: map[string]string{"Contains": "Intersects"}},
-		twinPair{pkg: "s2", recvA: "", fnA: "updateEdgePairMinDistance", recvB: "", fnB: "updateEdgePairMaxDistance", props: []string{"C08", "C17"}, why: "edge-pair distance from the four vertex-edge cases", subst: minMaxSubst},
+		twinPair{pkg: "s2", recvA: "", fnA: "updateEdgePairMinDistance", recvB: "", fnB: "updateEdgePairMaxDistance", props: []string{"C08", "C17"}, why: "edge-pair distance from the four vertex-edge cases", subst: minMaxSubst, looseCallees: true}, // the maximum version first tests the antipodal crossing (Mul(-1))
 		twinPair{pkg: "s2", recvA: "minDistance", fnA: "updateDistance", recvB: "maxDistance", fnB: "updateDistance", props: c08, why: "distance update of the two query families", subst: minMaxSubst},
 		twinPair{pkg: "s2", recvA: "", fnA: "NewMinDistanceToShapeIndexTarget", recvB: "", fnB: "NewMaxDistanceToShapeIndexTarget", props: c08, why: "constructors of the two ShapeIndex targets", subst: minMaxSubst},
 		twinPair{pkg: "s2", recvA: "minDistance", fnA: "fromChordAngle", recvB: "maxDistance", fnB: "fromChordAngle", props: c08, why: "distance wrappers of the two query families", subst: minMaxSubst},
@@ -401,4 +433,40 @@ func twinConstruct(tp twinPair) string {
 		return r + "." + f
 	}
 	return "twin:" + tp.pkg + "." + name(tp.recvA, tp.fnA) + "~" + name(tp.recvB, tp.fnB)
+}
+
+
+// twinCallees: names of the library functions fn calls statically, mapped through subst.
+func twinCallees(c *core.Ctx, f *types.Func, subst map[string]string) map[string]bool {
+	out := map[string]bool{}
+	fn := c.SSA(f)
+	if fn == nil {
+		return out
+	}
+	var visit func(fn *ssa.Function)
+	visit = func(fn *ssa.Function) {
+		core.AllInstrs(fn, func(in ssa.Instruction) {
+			ci, ok := in.(ssa.CallInstruction)
+			if !ok {
+				return
+			}
+			var name string
+			if ci.Common().IsInvoke() {
+				name = ci.Common().Method.Name()
+			} else if sc := ci.Common().StaticCallee(); sc != nil && core.IsGeo(sc) {
+				name = sc.Name()
+			} else {
+				return
+			}
+			if m, ok := subst[name]; ok {
+				name = m
+			}
+			out[name] = true
+		})
+		for _, an := range fn.AnonFuncs {
+			visit(an)
+		}
+	}
+	visit(fn)
+	return out
 }
